@@ -13,7 +13,7 @@ Bad(e) ==
                  <<"C01:str_in_re", \A j \in 1..Len(e.words) : RunOk(t, e.words[j], e.res[j])>>})
     [] e.op = "empty" ->
          LET t == Core(e.ast)
-             wOk == e.has_w => /\ Accepts(t, e.w) /\ e.w_in_re /\ e.w_acc /\ e.w_good
+             wOk == e.has_w => /\ (e.w_check => Accepts(t, e.w)) /\ e.w_in_re /\ e.w_acc /\ e.w_good
                                /\ \A j \in 1..Len(e.w) : e.w[j] \in 0..MaxChar
          IN
          IF e.exact THEN
@@ -23,7 +23,7 @@ Bad(e) ==
                     <<"C05:witness_is_member", wOk>>,
                     <<"C17:get_string_good", e.has_w => e.w_good>>})
          ELSE \* too costly for the exact closure: consistency and the witness only
-            Failed({<<"C05:is_empty_re", (e.has_w /\ Accepts(t, e.w)) => ~e.empty>>,
+            Failed({<<"C05:is_empty_re", (e.has_w /\ e.w_check /\ Accepts(t, e.w)) => ~e.empty>>,
                     <<"C05:get_string_none_iff_empty", e.has_w = ~e.empty>>,
                     <<"C05:witness_is_member", wOk>>})
     [] e.op = "start" ->
